@@ -336,6 +336,18 @@ def fixed_frozen_cases(g):
         g.emit("wf %s" % v)
         g.emit("toarr %s" % v)
         g.count("frozen:fixed-full-bitmap")
+    # images whose FIRST bytes happen to spell a portable-format cookie (12347 = 0x303b, 12346 = 0x303a): the image starts with
+    # user data (bitset words, else run intervals, else array values)
+    for j, slots in enumerate(["9:A:12347,20000", "40000:A:12347", "3:A:12346;4:A:0,7", "5:R:12347+10,30000+4", "5:R:12346+9,20000+30",
+                               "2:B:5037:303b.%s" % ".".join(["ffffffffffffffff"] * 78 + ["3fffffffff"] + ["0*944"]),
+                               "2:B:5036:303a.%s" % ".".join(["ffffffffffffffff"] * 78 + ["3fffffffff"] + ["0*944"])]):
+        x, v = g.fresh("fc"), g.fresh("fcv")
+        g.emit("mkrepr %s cow=0;%s" % (x, slots))
+        g.emit("frz %s" % x)
+        g.emit("fview %s %s" % (v, x))
+        g.emit("card %s" % v)
+        g.emit("toarr %s" % v)
+        g.count("frozen:leading-cookie-bytes")
 
 
 @suite("frozen")
